@@ -210,6 +210,73 @@ def do_aps_data(c):
                      if m.destination != 'aps']}
 
 
+# ---------------------------------------------------------------------------
+# APS receive histories (real APSManager inside a Sandbox playing the NWK layer)
+# ---------------------------------------------------------------------------
+class _NwkDb:
+    def __init__(self, amap):
+        self.amap = amap
+    def get(self, name):
+        if name == "nwkAddressMap":
+            return self.amap
+        return None
+
+
+def do_aps(h):
+    if "box2" not in _APS:
+        from whad.common.stack import alias
+        from whad.common.stack.tests import Sandbox
+        from whad.zigbee.stack.aps import APSManager
+        from whad.zigbee.stack.apl import APLManager
+        APSManager.remove(APLManager)
+
+        @alias('nwk')
+        class NWKBox2(Sandbox):
+            database = None
+        NWKBox2.add(APSManager)
+        _APS["box2"] = NWKBox2
+    from whad.zigbee.stack.aps.security import APSKeyPair
+    from whad.zigbee.stack.nwk.constants import NWKAddressMode
+    n = _APS["box2"]()
+    n.database = _NwkDb({int.from_bytes(bytes.fromhex(a), "little"): short for a, short in h["map"]})
+    aps = n.get_layer('aps')
+    aps.database.get("apsDeviceKeyPairSet").key_pair_set = [APSKeyPair(addr, bytes.fromhex(k)) for addr, k in h["kps"]]
+    got = []
+    def rec(kind):
+        def f(apdu, *a, **k):
+            d = {"svc": kind, "raw": raw(apdu).hex()}
+            if ZigbeeSecurityHeader in apdu and apdu[ZigbeeSecurityHeader].underlayer.__class__ is ZigbeeAppDataPayload:
+                d["sec"] = True
+                d["dis"] = dis(apdu, ZigbeeAppDataPayload)
+            else:
+                d["sec"] = False
+            got.append(d)
+        return f
+    aps.get_service("data").on_data_apdu = rec("data")
+    aps.get_service("management").on_command_apdu = rec("management")
+    steps = []
+    for fh in h["frames"]:
+        got.clear()
+        pdu = Dot15d4(bytes.fromhex(fh))
+        r = {}
+        if ZigbeeAppDataPayload not in pdu:
+            r["skip"] = True
+            steps.append(r)
+            continue
+        nsdu = pdu[ZigbeeAppDataPayload]
+        r["in"] = dis(pdu, ZigbeeAppDataPayload)
+        r["in_raw"] = raw(nsdu).hex()
+        try:
+            n.send('aps', nsdu, tag='NLDE-DATA', destination_address_mode=NWKAddressMode.UNICAST, destination_address=0,
+                   source_address=1, security_use=False, link_quality=255)
+        except Exception as e:  # noqa
+            r["exc"] = type(e).__name__
+        r["up"] = list(got)
+        r["counters"] = [[kp.device_address, int(kp.incoming_frame_counter)] for kp in aps.database.get("apsDeviceKeyPairSet").key_pair_set]
+        steps.append(r)
+    return steps
+
+
 def do_hash(c):
     try:
         if c[0] == "hash":
@@ -224,7 +291,8 @@ def main():
     res = {"crypt": [do_crypt(c) for c in req.get("crypt", [])],
            "nwk": [do_nwk(h) for h in req.get("nwk", [])],
            "hash": [do_hash(c) for c in req.get("hash", [])],
-           "aps_data": [do_aps_data(c) for c in req.get("aps_data", [])]}
+           "aps_data": [do_aps_data(c) for c in req.get("aps_data", [])],
+           "aps": [do_aps(h) for h in req.get("aps", [])]}
     print("RESULT " + json.dumps(res))
 
 main()
